@@ -414,7 +414,8 @@ def run_obligation(obl, scratch, keep=False):
     timefile = os.path.join(odir, "time.txt")
     cmd = ["/usr/bin/time", "-f", "%e %M", "-o", timefile] + cbmc_cmd(obl, binary)
     outf = os.path.join(odir, "cbmc.json")
-    rc, so, se, wall = _run(cmd, timeout=obl.timeout, mem_gb=obl.mem_gb, out=outf)
+    tmo = min(obl.timeout, int(os.environ.get("VERIF_TIMEOUT_CAP", "0") or 0) or obl.timeout)
+    rc, so, se, wall = _run(cmd, timeout=tmo, mem_gb=obl.mem_gb, out=outf)
     try:
         with open(timefile) as f:
             last = f.read().strip().splitlines()[-1].split()
@@ -425,7 +426,7 @@ def run_obligation(obl, scratch, keep=False):
     res.wall_s = time.time() - t0
     if rc == -999:
         res.status = "inconclusive"
-        res.detail = "timeout after %ds" % obl.timeout
+        res.detail = "timeout after %ds" % tmo
         return res
     results, stats, errtxt = parse_cbmc_json(raw)
     res.solver_s = stats.get("solver_s", 0.0)
@@ -520,6 +521,17 @@ def run_property(prop, spec, tier, seed, only=None, keep=False, jobs=None):
     scratch = os.environ.get("VERIF_SCRATCH") or "/var/tmp/lcdb-verif.%d" % os.getpid()
     os.makedirs(scratch, exist_ok=True)
     obls = [o for o in spec.OBLIGATIONS if tier == "thorough" or o.tier == "quick"]
+    # thorough-only obligations run only once they have been validated to finish
+    # and pass on the unchanged tree (obl/thorough_validated.json, written by
+    # tools/validate_thorough.py); VERIF_THOROUGH_ALL=1 runs every configured one
+    if tier == "thorough" and not os.environ.get("VERIF_THOROUGH_ALL"):
+        try:
+            allow = json.load(open(os.path.join(VERIF, "obl", "thorough_validated.json"))).get(prop)
+        except Exception:
+            allow = None
+        if allow is not None:
+            allow = set(allow)
+            obls = [o for o in obls if o.tier == "quick" or o.name in allow]
     if only:
         obls = [o for o in obls if re.search(only, o.name)]
     rnd = random.Random(seed)
